@@ -87,20 +87,24 @@ Definition model_outcome (boxcond : bool) (p : program) (args : list val) : res 
   end.
 
 (* A case: surface program, arguments of main, verdict of the real checker (true = accepted),
-   outcome of the tree-walking interpreter, outcome of the VM.
-   - accepted by the real checker  => accepted by the model's checker, and
+   outcome of the tree-walking interpreter, outcome of the VM, and whether the program is a
+   GENERATED one (true) or a mutant (false).
+   - accepted by the real checker and by the model's checker:
        the interpreter's outcome is that of the model as the interpreter is written (boxcond = false),
        the VM's outcome is that of the model with the conditional boxed (boxcond = true);
+   - accepted by the real checker, rejected by the model's checker: a disagreement for generated
+     programs (they are in the fragment by construction); tolerated for mutants, which may leave the
+     fragment (joins to Integer/HashableStruct, operands of type Never, array equality, ...);
    - rejected by the real checker: nothing is required (the model's checker does not model resource
-     loss, unreachable code, ... and may accept more). *)
-Definition case := (program * list val * bool * res oval * res oval)%type.
+     loss, unreachable code, expected-type inference ... and may accept more). *)
+Definition case := (program * list val * bool * res oval * res oval * bool)%type.
 
 Definition check_case (c : case) : bool :=
-  let '(p, args, accepted, oi, ov) := c in
+  let '(p, args, accepted, oi, ov, generated) := c in
   if accepted then
     match check_program p with
     | Some p' => ores_eqb (model_outcome false p' args) oi && ores_eqb (model_outcome true p' args) ov
-    | None => false
+    | None => negb generated
     end
   else true.
 
